@@ -187,6 +187,7 @@ structure MonState where
   failN : Nat := 0                          -- factory failures the harness has injected and not yet spent
   reported : List (Sc × CState) := []       -- what gRPC last reported for each connection (new ones: Idle)
   standIn : List (String × Slot) := []      -- history record: the stand-in slot each bound key is using
+  discardNext : Bool := false               -- the next `done` is gRPC discarding the pick (Done with no error, nothing sent)
   deriving Inhabited
 
 def MonState.start (c : Cfg) : MonState := { cfg := c }
@@ -254,9 +255,12 @@ def MonState.observe (m : MonState) (op : Op) (evs : List String) (post : Option
   match op with
   | .ccs ver =>
     m := { m with addrs := ver }
-    if !m.started then
+    if !m.started && ver == 0 then
+      -- an update without addresses: nothing can be created; the next one with addresses is still "the first" (F26)
+      if !newScs.isEmpty then fails := fails ++ [("C03", "initial_size")]
+    else if !m.started then
       m := { m with started := true }
-      -- C03.1 after the first resolver update with a working factory: exactly max(1,minSize) channels
+      -- C03.1 after the first resolver update with a non-empty list and a working factory: exactly max(1,minSize) channels
       if ver != 0 && injectedBefore == 0 then
         match post with
         | some v => if v.scRefs.length != c.min then fails := fails ++ [("C03", "initial_size")]
@@ -464,6 +468,23 @@ def MonState.observe (m : MonState) (op : Op) (evs : List String) (post : Option
     match m.calls.find? (fun x => x.id == call), pre with
     | some mc, some v =>
       m := { m with calls := m.calls.filter fun x => x.id != call }
+      let discarded := m.discardNext
+      m := { m with discardNext := false }
+      -- gRPC discards a pick whose SubConn has no ready transport by calling Done with no error and no bytes
+      -- sent, and picks again: the call was not made. No response was seen, no refresh may start, no key is
+      -- bound or unbound (known finding K7: the callback cannot tell this from a successful completion)
+      if discarded then
+        hits := hits ++ ["pool.pick_discarded_by_grpc"]
+        if !newScs.isEmpty || evs.contains "newfail" then fails := fails ++ [("C07", "discarded_pick_is_no_response")]
+        match post with
+        | some pv =>
+          if pv.affinity != v.affinity then fails := fails ++ [("C01", "discarded_pick_changes_no_binding")]
+          match v.refs[mc.slot]?, pv.refs[mc.slot]? with
+          | some a, some b =>
+            if a.lastResp != b.lastResp || a.deCalls != b.deCalls || a.refreshCnt != b.refreshCnt then
+              fails := fails ++ [("C07", "discarded_pick_is_no_response")]
+          | _, _ => pure ()
+        | none => pure ()
       -- C07: the detector, from the history alone
       if m.detectors.length > mc.slot then
         let d := m.detectors[mc.slot]!
